@@ -251,7 +251,7 @@ def run(chk):
     quick = chk.tier == 'quick'
     P = (chk.prop, chk.tier)
     cases = []
-    ML = 3 if quick else 4
+    ML = 3 if quick else 5
     lens = list(range(0, ML + 1))
     # one package: up to 2 cflags tokens and 1 libs token (quick) / 2 and 2 (thorough)
     for nc in range(0, 3):
